@@ -318,10 +318,7 @@ def run(cx):
     pm = mod(PARSER)
     cx.consulted(pm)
     cx.explanation = (
-        "operator/compare tables of the constant evaluator checked against Python's operator semantics, path-condition "
-        "analysis of every fold site (a folded value may only come from a name-free expression), inventory of every read "
-        "and write of the constant environment, copy discipline of child scopes, and the bake-or-assign decision for global "
-        "initialisers; the values themselves are not computed"
+        "the constant evaluator is evaluated on a complete small expression grammar against Python's values; what reaches the firmware is decided on behaviour: prologues (integers, strings, lists) interpreted from the parsed IR vs CPython, scripts whose values depend on a run-time branch/loop/append for both sensor outcomes (trace equality), constant-environment probes of every device-call argument, literal-vs-variable uniformity and context-freedom of emission; ownership rules (no in-place mutation of environment values, scope copies, no module state). Values of arbitrary user programs are not computed."
     )
     evc = pm.func("_eval_const")
     ev = pm.func("_eval_const.ev")
